@@ -36,7 +36,25 @@ func c02Scenarios(tier string) []*explore.Scenario {
 			c02ControlLengths(x, server)
 		}})
 	}
+	// the 7/16/64-bit length-form boundaries through every API that builds a frame on its own
+	for _, server := range []bool{true, false} {
+		server := server
+		scs = append(scs, &explore.Scenario{Name: fmt.Sprintf("c02/length-forms/writer=%s", roleName(server)), Bound: 0, Body: func(x *explore.Ctx) { c02LengthForms(x, server) }})
+	}
 	return scs
+}
+
+func c02LengthForms(x *explore.Ctx, server bool) {
+	mask := &MaskRec{}
+	restore := websocket.VerifSetMaskRand(mask)
+	defer restore()
+	n := []int{124, 125, 126, 127, 65534, 65535, 65536, 65537}[x.Pick(8, "size")]
+	b := []int{0, 70000}[x.Pick(2, "WriteBufferSize")]
+	e := NewWEnv(x, WConfig{Server: server, B: b}, false)
+	e.Mask = mask
+	prog := []int{PWriteMessage, PNextWriterAll, PPrepared, PReadFrom, PSplitString}[x.Pick(5, "api")]
+	e.WriteMessageProg(prog, websocket.BinaryMessage, n, 0, func(int, string) int { return 0 }, func(int, string) int { return 0 }, nil)
+	judgeWire(x, e, "C02")
 }
 
 func c02Body(x *explore.Ctx, cfg WConfig, prog int, tier string) {
